@@ -34,7 +34,9 @@ EXPECTED_PROBES = ['unresponsive_seen', 'close_timeout_fired', 'ping_rate_zero',
                    'trickled_frame', 'auto_pong_off',
                    'timeout_without_auto_ping',
                    'close_called_again_while_closing',
-                   'read_filled_buffer_exactly']
+                   'read_filled_buffer_exactly',
+                   'server_closes_first_then_keeps_tcp_open',
+                   'unsolicited_pongs']
 
 EPS = 2e-5      # float rounding at a 1.7e9 epoch (2^-22 s) with margin
 
@@ -82,6 +84,14 @@ def make_case(family, i, rng, tier):
     elif pm == 'first_k':
         pong = {'delay': 1000, 'limit': rng.choice([1, 2, 4])}
     case['pong'] = pong
+    if t and rng.random() < 0.25:
+        # heartbeat Pongs the server sends on its own (own payload, not an
+        # echo of any Ping): they count as signs of life like any Pong
+        every = t * rng.choice([0.4, 0.7])
+        case['heartbeat'] = {'every': every,
+                             'until': round(horizon * rng.choice([0.3, 0.6,
+                                                                  1.0]), 3)}
+        case['pong'] = None
     # data arrivals (seconds after Ready)
     nd = rng.choice([0, 0, 1, 3, 10])
     case['data'] = sorted(round(rng.uniform(0, horizon * 0.8), 3)
@@ -111,6 +121,10 @@ def make_case(family, i, rng, tier):
             case['close_repeat'] = True
     elif cm == 'server_close':
         case['server_close_at'] = round(rng.uniform(0, horizon * 0.7), 3)
+        # after the client's echo the server hangs up - or keeps the TCP
+        # connection open: then the client's Close is "not completed" and
+        # only the close timeout ends it
+        case['server_keeps_open'] = rng.random() < 0.4
     case['end'] = rng.choice(['eof', 'eof', 'rst'])
     if family == 'jitter':
         case['latency'] = rng.choice([1000, 20000, int(p * 2e5)])
@@ -135,6 +149,13 @@ def build(case):
         timeline = [x for x in timeline if len(x[1]) == 1 or
                     not (tr_['at'] <= x[0] <= tr_['at'] + len(blob) *
                          tr_['every'])]
+    hb = case.get('heartbeat')
+    if hb and not tr_:
+        k = 1
+        while k * hb['every'] <= hb['until']:
+            timeline.append((round(k * hb['every'], 6),
+                             peer.enc_frame(10, b'hb-%d' % k)))
+            k += 1
     if case.get('full_read_at') is not None:
         fr = peer.enc_frame(2, b'F' * (65536 - 4))
         assert len(fr) == 65536
@@ -147,7 +168,12 @@ def build(case):
         steps.append(S.send(fr, after=max(0, int(round((tm - tprev) * 1e6)))))
         tprev = tm
     cm = case.get('close_mode')
-    if cm == 'server_close':
+    if cm == 'server_close' and case.get('server_keeps_open'):
+        steps += [{'op': 'await_close', 'timeout': int(5e6)},
+                  {'op': case.get('end', 'eof'),
+                   'after': int((H + (case.get('close_timeout') or 0) * 3 +
+                                 5 * p) * 1e6)}]
+    elif cm == 'server_close':
         steps += [{'op': 'await_close', 'timeout': int(5e6)}, S.eof(after=1000)]
     elif cm == 'app_close':
         rep = case.get('close_reply')
@@ -236,6 +262,8 @@ def execute(case):
         res.stats['probe:jitter'] += 1
     if t and not r:
         res.stats['probe:timeout_without_auto_ping'] += 1
+    if case.get('heartbeat') and any(e.name == 'pong' for e in tr.events):
+        res.stats['probe:unsolicited_pongs'] += 1
     if case.get('full_read_at') is not None and 'binary' in names:
         res.stats['probe:read_filled_buffer_exactly'] += 1
     if sum(1 for cc in tr.calls if cc.op == 'close_if_closing' and
@@ -354,7 +382,12 @@ def execute(case):
     eofs = [rel(m[1]) for m in w.marks]
     perr = 'protocol_error' in names
     completed = 'closed' in names or 'closing' in names
-    if close_T is not None and not completed and 'closing' not in names:
+    keeps = bool(case.get('server_keeps_open')) and 'closing' in names \
+        and 'closed' not in names
+    if keeps:
+        res.stats['probe:server_closes_first_then_keeps_tcp_open'] += 1
+    if close_T is not None and ((not completed and 'closing' not in names)
+                                or keeps):
         if c:
             lo, hi = close_T + c, close_T + c + p + L
             other = unresp or perr or any(x < lo - eps for x in eofs)
